@@ -247,3 +247,169 @@ Proof. intros Ha Hb Hd. rewrite (gen_link_1to1_is_model n1 n2 a b Ha Hb).
   destruct (existsb dim_clash _) eqn:Hx; auto. apply existsb_exists in Hx as [[s r] [Hi Hc]].
   apply in_prod_iff in Hi as [Hs Hr]. rewrite (Hd s r Hs Hr) in Hc. discriminate. Qed.
 End GenLinkEq.
+
+(* ------------------------------------------------------------------ generated merge = Graph.merge_graph_l, as node / edge SETS
+   `merge(model, *models, inplace, name)` as translated on this run (vocabulary base/PyColl4.v).  Representation (precisely):
+   * an element of `*models` is an [operand]: an object or a list / tuple of objects; [objs := flat_map opnd_flat models] is the
+     flattened `operands` list of the source; the hand model takes the flattened list of [value]s [bs] directly
+     ([Graph.merge_graph_l a bs]); [Forall2 mrepr objs bs] relates the two ([mrepr] = [repr] of the link section and
+     `isinstance(x, _Node)`; a nested list is an object that is not a _Node: TypeError, outside [mrepr]).
+   * not in place: the generated function returns [MNew V E] = `Model(nodes=list(all_nodes), edges=list(all_edges), name=name)`
+     where V / E are lists made from Python SETS ([ord_n 1] / [ord_e 1] of duplicate-free lists): compared with the [nodup]
+     lists of [merge_graph_l] as duplicate-free enumerations of the same set ([same_set]); no claim about order.
+     The constructor call itself (Concat insertion, entries / exits, sort) is NOT translated: [Graph.mk_model], tie H.
+   * in place: [MUpdate model V E] = `model.update_graph(all_nodes, all_edges)`; V / E enumerate the union over the operands
+     ONLY ([merge_graph_l] of the operands around an empty left side); the union with the nodes of `model` itself is made
+     inside Model.update_graph (not translated: [Graph.update_graph], tie H).  A left operand that is not a non-frozen
+     Model: ValueError, AFTER the operands have been checked (TypeError wins).
+   The junction with the generated text is [gen_merge_unfold] (by reflexivity, [mbody] / [mleft] copied from the generated text). *)
+From RV Require Import base.PyColl4.
+
+Section GenMergeEq.
+Variable ord_n : nat -> list node -> list node.
+Variable ord_e : nat -> list edge -> list edge.
+Hypothesis Hord_n : forall k s, Permutation (ord_n k s) s.
+Hypothesis Hord_e : forall k s, Permutation (ord_e k s) s.
+Variables is_model is_frozen_model is_node : node -> bool.
+Variables attr_nodes attr_input_nodes attr_output_nodes : node -> list node.
+Variable attr_edges : node -> list edge.
+
+Definition g_merge := GenOps.merge ord_n ord_e is_model is_frozen_model is_node attr_nodes attr_edges.
+
+Definition mrepr (n : node) (a : value) : Prop :=
+  repr is_model is_frozen_model attr_nodes attr_input_nodes attr_output_nodes attr_edges n a /\ is_node n = true.
+
+Definition mstate := (list node * list edge)%type.
+
+(* the body of the main loop and the "add left side model nodes" step of the generated definition, copied *)
+Definition mbody : mstate -> node -> py4 mstate := fun '(all_nodes, all_edges) m =>
+py4_bind (if (andb (is_model m) (negb (is_frozen_model m))) then
+let all_nodes := set_union all_nodes (py_set (attr_nodes m)) in
+let all_edges := set_union all_edges (py_set (attr_edges m)) in
+Val4 (all_nodes, all_edges)
+else
+py4_bind (if (is_node m) then
+let all_nodes := set_union all_nodes (py_set [m]) in
+Val4 all_nodes
+else
+Exc4 TypeError) (fun all_nodes =>
+Val4 (all_nodes, all_edges))) (fun '(all_nodes, all_edges) =>
+Val4 (all_nodes, all_edges)).
+
+Definition mleft (model : node) : mstate -> mstate := fun '(all_nodes, all_edges) =>
+(if (andb (is_model model) (negb (is_frozen_model model))) then
+let all_nodes := set_union all_nodes (py_set (attr_nodes model)) in
+let all_edges := set_union all_edges (py_set (attr_edges model)) in
+(all_nodes, all_edges)
+else
+let all_nodes := set_union all_nodes (py_set [model]) in
+(all_nodes, all_edges)).
+
+Lemma gen_merge_unfold model models inplace name : g_merge model models inplace name =
+  if is_node model then
+    py4_bind (py4_for (pure_for models (fun operands m => operands ++ opnd_flat m) []) mbody ([], []))
+      (fun '(all_nodes, all_edges) =>
+         if inplace then
+           if orb (negb (is_model model)) (is_frozen_model model) then Exc4 (Py ValueError)
+           else Val4 (MUpdate model all_nodes all_edges)
+         else let '(all_nodes, all_edges) := mleft model (all_nodes, all_edges) in
+              Val4 (MNew (ord_n 1 all_nodes) (ord_e 1 all_edges)))
+  else Exc4 TypeError.
+Proof. reflexivity. Qed.
+
+Lemma flatten_loop (models : list operand) : forall acc,
+  pure_for models (fun operands m => operands ++ opnd_flat m) acc = acc ++ flat_map opnd_flat models.
+Proof. unfold pure_for. induction models as [|m l IH]; intros acc; cbn [fold_left flat_map].
+  - now rewrite app_nil_r.
+  - rewrite IH. now rewrite app_assoc. Qed.
+
+Lemma mbody_spec N A n a : mrepr n a ->
+  mbody (N, A) n = Val4 (set_union N (py_set (v_nodes a)), match a with VNode _ => A | VModel _ => set_union A (py_set (v_edges a)) end).
+Proof. intros [Hr Hn]. unfold mbody. destruct a as [k|m]; cbn [repr] in Hr; cbn [v_nodes v_edges].
+  - destruct Hr as [-> [H1 H2]]. rewrite H1, Hn. reflexivity.
+  - destruct Hr as [H1 [H2 [H3 [H4 _]]]]. rewrite H1, H2, H3, H4. reflexivity. Qed.
+
+Lemma mloop_spec objs bs : Forall2 mrepr objs bs -> forall N A, NoDup N -> NoDup A ->
+  exists N' A', py4_for objs mbody (N, A) = Val4 (N', A') /\ NoDup N' /\ NoDup A' /\
+    (forall x, In x N' <-> In x N \/ In x (flat_map v_nodes bs)) /\
+    (forall e, In e A' <-> In e A \/ In e (flat_map v_edges bs)).
+Proof. induction 1 as [|n a objs bs Hr Hf IH]; intros N A HN HA.
+  - exists N, A. cbn. repeat split; auto; tauto.
+  - cbn [py4_for]. rewrite (mbody_spec N A n a Hr).
+    match goal with |- context [py4_for objs mbody (?N1, ?A1)] =>
+      destruct (IH N1 A1) as [N' [A' [Hl [HN' [HA' [HNi HAi]]]]]] end.
+    { apply set_union_NoDup; auto. apply py_set_NoDup. }
+    { destruct a; auto. apply set_union_NoDup; auto. apply py_set_NoDup. }
+    exists N', A'. split; [exact Hl|]. split; [exact HN'|]. split; [exact HA'|]. split.
+    + intros x. rewrite HNi, set_union_In, py_set_In. cbn [flat_map]. rewrite in_app_iff. tauto.
+    + intros e. rewrite HAi. cbn [flat_map]. rewrite in_app_iff. destruct a as [k|m]; cbn [v_edges].
+      * cbn [In]. tauto.
+      * rewrite set_union_In, py_set_In. tauto.
+Qed.
+
+Lemma mleft_spec N A n a : mrepr n a -> NoDup N -> NoDup A ->
+  exists N' A', mleft n (N, A) = (N', A') /\ NoDup N' /\ NoDup A' /\
+    (forall x, In x N' <-> In x N \/ In x (v_nodes a)) /\ (forall e, In e A' <-> In e A \/ In e (v_edges a)).
+Proof. intros [Hr Hn] HN HA. unfold mleft. destruct a as [k|m]; cbn [repr] in Hr; cbn [v_nodes v_edges].
+  - destruct Hr as [-> [H1 H2]]. rewrite H1. cbn [andb]. eexists; eexists. split; [reflexivity|].
+    split; [apply set_union_NoDup; auto; apply py_set_NoDup|]. split; [exact HA|]. split.
+    + intros x. now rewrite set_union_In, py_set_In.
+    + intros e. cbn [In]. tauto.
+  - destruct Hr as [H1 [H2 [H3 [H4 _]]]]. rewrite H1, H2, H3, H4. cbn [andb negb]. eexists; eexists. split; [reflexivity|].
+    split; [apply set_union_NoDup; auto; apply py_set_NoDup|]. split; [apply set_union_NoDup; auto; apply py_set_NoDup|]. split.
+    + intros x. now rewrite set_union_In, py_set_In.
+    + intros e. now rewrite set_union_In, py_set_In.
+Qed.
+
+(* merge(model, *models) / `model & other`: a NEW Model built from the node set / edge set of [Graph.merge_graph_l] *)
+Theorem gen_merge_is_model (model : node) (models : list operand) (name : unit) (a : value) (bs : list value) :
+  mrepr model a -> Forall2 mrepr (flat_map opnd_flat models) bs ->
+  exists V E, g_merge model models false name = Val4 (MNew V E) /\
+    same_set V (fst (merge_graph_l a bs)) /\ same_set E (snd (merge_graph_l a bs)).
+Proof. intros Ha Hbs. rewrite gen_merge_unfold. rewrite (proj2 Ha). rewrite flatten_loop. cbn [app].
+  destruct (mloop_spec _ _ Hbs [] [] (NoDup_nil _) (NoDup_nil _)) as [N1 [A1 [Hl [HN1 [HA1 [HN1i HA1i]]]]]].
+  cbv delta [Graph.node PyColl.node Graph.edge PyColl.edge] in *. rewrite Hl. cbn [py4_bind].
+  destruct (mleft_spec N1 A1 model a Ha HN1 HA1) as [N2 [A2 [Hm [HN2 [HA2 [HN2i HA2i]]]]]].
+  cbv delta [Graph.node PyColl.node Graph.edge PyColl.edge] in *. rewrite Hm. eexists; eexists. split; [reflexivity|]. cbn [merge_graph_l fst snd]. split; (split; [|split]).
+  - exact (Permutation_NoDup (Permutation_sym (Hord_n 1 N2)) HN2).
+  - apply NoDup_nodup.
+  - intros x. rewrite nodup_In, in_app_iff. split.
+    + intros Hi. apply (Permutation_in _ (Hord_n 1 N2)) in Hi. apply HN2i in Hi as [Hi|Hi]; [|now right].
+      apply HN1i in Hi as [[]|Hi]. now left.
+    + intros Hi. apply (Permutation_in _ (Permutation_sym (Hord_n 1 N2))). apply HN2i. destruct Hi as [Hi|Hi]; [|now right].
+      left. apply HN1i. now right.
+  - exact (Permutation_NoDup (Permutation_sym (Hord_e 1 A2)) HA2).
+  - apply NoDup_nodup.
+  - intros e. rewrite nodup_In, in_app_iff. split.
+    + intros Hi. apply (Permutation_in _ (Hord_e 1 A2)) in Hi. apply HA2i in Hi as [Hi|Hi]; [|now right].
+      apply HA1i in Hi as [[]|Hi]. now left.
+    + intros Hi. apply (Permutation_in _ (Permutation_sym (Hord_e 1 A2))). apply HA2i. destruct Hi as [Hi|Hi]; [|now right].
+      left. apply HA1i. now right.
+Qed.
+
+(* merge(model, *models, inplace=True) / `model &= other`: hands the union over the OPERANDS to model.update_graph *)
+Theorem gen_merge_inplace (model : node) (models : list operand) (name : unit) (m : Graph.model) (bs : list value) :
+  mrepr model (VModel m) -> Forall2 mrepr (flat_map opnd_flat models) bs ->
+  exists V E, g_merge model models true name = Val4 (MUpdate model V E) /\
+    same_set V (nodup Nat.eq_dec (flat_map v_nodes bs)) /\ same_set E (nodup edge_eq_dec (flat_map v_edges bs)).
+Proof. intros Ha Hbs. rewrite gen_merge_unfold. rewrite (proj2 Ha). rewrite flatten_loop. cbn [app].
+  destruct (mloop_spec _ _ Hbs [] [] (NoDup_nil _) (NoDup_nil _)) as [N1 [A1 [Hl [HN1 [HA1 [HN1i HA1i]]]]]].
+  cbv delta [Graph.node PyColl.node Graph.edge PyColl.edge] in *. rewrite Hl. cbn [py4_bind]. destruct Ha as [[H1 [H2 _]] _]. rewrite H1, H2. cbn [negb orb].
+  exists N1, A1. split; [reflexivity|]. split; (split; [assumption|split; [apply NoDup_nodup|]]).
+  - intros x. rewrite nodup_In, HN1i. cbn [In]. tauto.
+  - intros e. rewrite nodup_In, HA1i. cbn [In]. tauto.
+Qed.
+
+(* in place on a bare node: ValueError (the operands being acceptable) *)
+Theorem gen_merge_inplace_node (model : node) (models : list operand) (name : unit) (k : node) (bs : list value) :
+  mrepr model (VNode k) -> Forall2 mrepr (flat_map opnd_flat models) bs ->
+  g_merge model models true name = Exc4 (Py ValueError).
+Proof. intros Ha Hbs. rewrite gen_merge_unfold. rewrite (proj2 Ha). rewrite flatten_loop. cbn [app].
+  destruct (mloop_spec _ _ Hbs [] [] (NoDup_nil _) (NoDup_nil _)) as [N1 [A1 [Hl _]]].
+  cbv delta [Graph.node PyColl.node Graph.edge PyColl.edge] in *. rewrite Hl. cbn [py4_bind]. destruct Ha as [[_ [H1 _]] _]. rewrite H1. reflexivity. Qed.
+
+(* a left operand that is not a _Node: TypeError, whatever the rest *)
+Theorem gen_merge_not_node (model : node) (models : list operand) (inplace : bool) (name : unit) :
+  is_node model = false -> g_merge model models inplace name = Exc4 TypeError.
+Proof. intros H. rewrite gen_merge_unfold. now rewrite H. Qed.
+End GenMergeEq.
